@@ -10,7 +10,7 @@ SPEC = {
                   "validator view, canonical hashes, stored identity diffs, tx/receipt index, reverted txs) equals a node that replayed the fork from genesis.",
     "level_note": "the committee is harness-held keys; inner-block certificate shapes are recorded but only the tip requirement of the property is asserted",
     "rule": "case = one fork offer; distinct_nontrivial = distinct (length class, tip cert shape, inner cert shape, content class, long/short) tuples",
-    "jobs": [Job("forks", "verifsim", "^TestVerifC08$", shards=(8, 16), timeout=(900, 3600))],
+    "jobs": [Job("forks", "verifsim", "^TestVerifC08$", shards=(8, 16), timeout=(900, 7200))],
     "floors": {"fork_offers": (100, 1500), "adopted": (15, 200), "refused": (30, 400), "tip-cert:nil": 5, "tip-cert:empty": 8, "tip-cert:under-quorum": 3,
                "tip-cert:forged": 5, "tip-cert:wrong-round": 3, "tip-cert:valid": 30, "tip-cert:duplicated-votes": 5, "adopted:shorter": 8, "content:identity-update": 10, "content:tampered-tip": 5,
                "len:shorter": 10, "len:equal": 10, "len:longer": 20,
